@@ -22,6 +22,7 @@ import (
 	"fmt"
 	"math"
 	"os"
+	"runtime/pprof"
 	"sync"
 	"sync/atomic"
 	"syscall"
@@ -125,6 +126,12 @@ func phase(name string) {
 func main() {
 	log.Root().SetHandler(log.DiscardHandler())
 	r := vk.Start("C17", "model_checking")
+	if pf := os.Getenv("C17_CPUPROFILE"); pf != "" { // development aid only
+		if f, err := os.Create(pf); err == nil {
+			pprof.StartCPUProfile(f)
+			defer pprof.StopCPUProfile()
+		}
+	}
 	initFixtures(maxN)
 	arith := selfTestArith()
 	if r.ReplayPath != "" {
@@ -141,8 +148,8 @@ func main() {
 	extMaxN := 3
 	extCfg := rotCfg{maxStart: 4, maxTotal: 6, periods: 3, window: 2000}
 	permExtra := [][]int64{}
-	setSearch := setCfg{ids: 3, powers: []int64{1, 3, M/2 + 1}, altCB: true}
-	setDepth := 6
+	setSearch := setCfg{ids: 3, powers: []int64{1, 3, M/2 + 1}, altCB: true, commits: 3}
+	setDepth := 5
 	type usRun struct {
 		cfg   usCfg
 		depth int
@@ -162,7 +169,7 @@ func main() {
 		extMaxN = 4
 		extCfg = rotCfg{maxStart: 5, maxTotal: 7, periods: 3, window: 5000}
 		permExtra = enumSets([]int64{1, 3}, 6, 6)
-		setSearch = setCfg{ids: 4, powers: []int64{1, 3, M/2 + 1}, altCB: true}
+		setSearch = setCfg{ids: 4, powers: []int64{1, 3, M/2 + 1}, altCB: true, commits: 4}
 		setDepth = 6
 		simRuns = []simRun{{[]int64{1, 2, 3}, 4, true}, {[]int64{1, 2, 3, 5}, 4, false}}
 		usRuns = []usRun{{usCfg{ids: 3, powers: []int64{1, 3}, altCB: true}, 5}, {usCfg{ids: 4, powers: []int64{1, 3}, altCB: true}, 2}}
@@ -342,5 +349,6 @@ func main() {
 	r.Assume("Update/Add are called with Accum=0 validators, as every caller in the tree does")
 	r.Assume("simulation part: one real ConsensusState per run at height 1 with a trivial application (csnet.TrivApp); the other validators are puppets that send correctly signed nil votes; jumps are triggered by +2/3 nil prevotes of the target round or +2/3 nil precommits of the round before it")
 	r.Assume("proportionality is asserted only for sets in which no saturation occurs inside the window; for saturating sets it is measured and reported")
+	pprof.StopCPUProfile()
 	r.Finish()
 }
